@@ -22,9 +22,10 @@ deriving Repr, DecidableEq
 def Verdict.toString : Verdict → String
   | .ok => "ok" | .skip => "skip" | .violates c => "violates " ++ c
 
-/-- "Anything outside the preconditions (oversized token, invalid type or message ID)". -/
+/-- "Anything outside the preconditions (oversized token, invalid type or message ID)"; the preconditions also
+list "code 0-255" (`codes.Code` is a `uint16`, the wire has one byte). -/
 def mustRefuse (f : Framing) (m : Msg) : Bool :=
-  decide (m.token.length > 8) ||
+  decide (m.token.length > 8) || decide (m.code > 255) ||
   (match f with
    | .udp => decide (m.typ < 0) || decide (m.typ > 3) || decide (m.mid < 0) || decide (m.mid > 65535)
    | .tcp => false)
@@ -33,6 +34,7 @@ def mustRefuse (f : Framing) (m : Msg) : Bool :=
 4..255 have their own clause: the library's `ValidateType` admits them (DESIGN §6-F15). -/
 def refuseClause (f : Framing) (m : Msg) : String :=
   if m.token.length > 8 then "refuses-oversized-token"
+  else if m.code > 255 then "refuses-invalid-code"
   else if f = .udp ∧ (m.mid < 0 ∨ m.mid > 65535) then "refuses-invalid-mid"
   else if f = .udp ∧ 3 < m.typ ∧ m.typ ≤ 255 then "refuses-type-above-reset"
   else "refuses-invalid-type"
@@ -84,8 +86,13 @@ def judgeEncAll (f : Framing) (m : Msg) (size : Int) (err : String) (nSize nCana
       match full with
       | some o => if o.err = "ok" ∧ o.n = (e.length : Int) ∧ o.buf = e then .ok else .violates "encode-equals-rfc"
       | none => .violates "encode-equals-rfc"
-  else if decide (m.token.length > 8) then
-    if err ≠ "ok" then .ok else .violates "refuses-oversized-token"
+  else if mustRefuse f m then
+    -- refused either by `Size` already or by every `Encode`
+    if err ≠ "ok" then .ok
+    else
+      match full with
+      | some o => if o.err ≠ "ok" ∧ o.err ≠ "tooSmall" then .ok else .violates (refuseClause f m)
+      | none => .violates (refuseClause f m)
   else .skip
 
 /-- `Options.Marshal` on its own, over the nil buffer and every buffer length `0..len`: the sizing pass
